@@ -90,6 +90,9 @@ where
     let mut r#match = None;
     let mut len = 0;
 
+    // The field occupies `dst[start..]`.
+    let start = dst.len();
+
     loop {
         let src = match reader.fill_buf() {
             Ok(src) => src,
@@ -116,7 +119,9 @@ where
 
     let is_eol = matches!(r#match, Some(LINE_FEED));
 
-    if is_eol && dst.ends_with(&[CARRIAGE_RETURN]) {
+    // The carriage return of a CRLF line ending belongs to this field. When this field is empty,
+    // a carriage return at the end of `dst` is the last byte of the previous field.
+    if is_eol && dst[start..].ends_with(&[CARRIAGE_RETURN]) {
         dst.pop();
     }
 
